@@ -19,7 +19,8 @@ RULE = (
     "ignored dims, grafting on/off, momentum, weight decay) x 1-4 parameter shapes of order 0-4 x generated step sequence with "
     "absent gradients and rank-deficient gradient recipes. Non-trivial = at least one refresh that stores a non-identity basis "
     "(factor not diagonal, size > 1) and at least one later step that uses it stale; class real_qr_refresh = the history contains "
-    "a QR refresh from a non-zero previous basis. Distinct = canonical JSON of the history."
+    "a QR refresh from a non-zero previous basis; class kept_previous_basis_after_injected_failure = an injected torch.linalg.qr failure "
+    "(k-th call of a step raises) fired and the failed factor kept its previous basis. Distinct = canonical JSON of the history."
 )
 BOUNDS = "orders 0-4, numel <= 300, <= 4 parameters per group, <= 2 groups, <= 12 / 30 steps, QR max_iterations <= 5"
 TOLERANCES = (
@@ -46,7 +47,20 @@ def config_strategy():
 
 
 def step_strategy(runner: Runner):
-    return history.st_history_step(runner)
+    base = history.st_history_step(runner)
+    if not any(h["precond"].get("method") == "qr" for h in runner.hp):
+        return base
+    from hypothesis import strategies as st
+
+    # about every sixth step of a QR history the k-th torch.linalg.qr call of the step raises (a refresh that fails part-way, possibly in a later
+    # orthogonal iteration): the failed factor must keep its previous basis bitwise, every other factor must still be a valid update
+    def add(s: dict, k: int) -> dict:
+        if k:
+            s = dict(s)
+            s["qr_fault"] = k
+        return s
+
+    return st.builds(add, base, st.sampled_from([0] * 10 + [1, 2, 2, 3, 4, 6]))
 
 
 STREAMS = {
